@@ -175,8 +175,9 @@ surv0_ctx_recv(void *arg, nni_aio *aio)
 	}
 
 	timeout = nni_aio_get_timeout(aio);
-	if ((timeout < 1) || ((now + timeout) > ctx->expire)) {
-		// limit the timeout to the survey time
+	if ((timeout < 0) || ((now + timeout) > ctx->expire)) {
+		// limit the timeout to the survey time (a zero timeout is a
+		// non-blocking poll and must stay that way)
 		nni_aio_set_expire(aio, ctx->expire);
 	}
 
